@@ -188,6 +188,19 @@ func (w *gzipResponseWriter) Write(b []byte) (int, error) {
 	return n, err
 }
 
+// Flush implements http.Flusher. The headers are committed first if they
+// have not been yet (flushing the underlying writer would send them
+// without the compression headers), then the compressed data is flushed.
+func (w *gzipResponseWriter) Flush() {
+	if !w.statusCodeWritten {
+		w.WriteHeader(http.StatusOK)
+	}
+	if gzWriter, ok := w.internalWriter.(*gzip.Writer); ok {
+		gzWriter.Flush()
+	}
+	w.ResponseWriterWrapper.Flush()
+}
+
 //Writer use a lazy way to initialize Writer
 func (w *gzipResponseWriter) Writer() io.Writer {
 	if w.internalWriter == nil {
